@@ -41,7 +41,10 @@ use std::{
     cmp::max,
     fmt::Debug,
     panic::resume_unwind,
-    sync::{Arc, OnceLock, atomic::AtomicBool},
+    sync::{
+        Arc, OnceLock,
+        atomic::{AtomicBool, Ordering, fence},
+    },
     thread,
     time::{Duration, Instant},
 };
@@ -920,6 +923,13 @@ where
         drop(tx_state);
         #[cfg(feature = "verif")]
         crate::verif::point(crate::verif::Point::ValidateBeforeNotify, txid, incarnation);
+        // The decision below reads the finality cursor after this validation's verdict was
+        // published, while the finality thread publishes that cursor and then re-examines the
+        // candidate before parking: a store-buffering shape. The fence pairs with the one inside
+        // `WaitSlot::notify()` that follows every finality publication, so either this read sees
+        // the published index (and notifies) or the finality thread sees this verdict (and does
+        // not park on it).
+        fence(Ordering::SeqCst);
         if txid == self.scheduler_ctx.finality_idx() {
             self.finality_wait.notify();
         }
